@@ -22,8 +22,27 @@ def explore(ctx):
     n = 140 if ctx.quick() else 1400
     for it in range(n):
         sc = scengen.gen_scenario(rnd, 'faults' if it % 3 else 'contract')
+        # every tenth run the wall clock (time.time) is stepped back and forth by an hour while passes run: only the
+        # monotonic clock may be used for pass times
+        import cvise.utils.statistics as st_mod
+        real_time_mod = st_mod.time
+        if it % 10 == 0:
+            class SteppedClock:
+                calls = 0
+
+                def __getattr__(self, name):
+                    return getattr(real_time_mod, name)
+
+                def time(self):
+                    SteppedClock.calls += 1
+                    return real_time_mod.time() + (3600 if SteppedClock.calls % 2 else -3600)
+            st_mod.time = SteppedClock()
+            ctx.count('stepped-wall-clock')
         t0 = time.monotonic()
-        o = driver.run_scenario(sc, ctx.tmp)
+        try:
+            o = driver.run_scenario(sc, ctx.tmp)
+        finally:
+            st_mod.time = real_time_mod
         wall = time.monotonic() - t0
         ctx.evaluations += 1
         if o.diverged:
